@@ -413,3 +413,202 @@ Proof.
     auto; try lia; unfold fuel_for; pose proof (wsz_le a); pose proof (wsz_le b); lia. }
   exact (R_inj _ _ H).
 Qed.
+
+(* ------------------------------------------------------------------ *)
+(* Order theory of the pure ranking                                     *)
+(* ------------------------------------------------------------------ *)
+Lemma view_compat : forall a b, tyrank a = tyrank b ->
+  (vtag a = vtag b \/ vtag a = 0 \/ vtag b = 0)%Z.
+Proof.
+  intros a b.
+  destruct a as [ | | | | | | | | | | | |[] | |[]]; destruct b as [ | | | | | | | | | | | |[] | |[]];
+  unfold vtag; simpl; intros H; auto; discriminate.
+Qed.
+
+Definition psame (r : val -> val -> comparison) (a b : val) : comparison :=
+  match view_of a, view_of b with
+  | WLeaf, WLeaf => lrank a b
+  | WAssoc k1 v1, WAssoc k2 v2 => cthen (r k1 k2) (r v1 v2)
+  | WArr xs, WArr ys => lexswap r xs ys
+  | WMap m1, WMap m2 =>
+      lexswap (pairr r) (sort_values (keyr r) m1) (sort_values (keyr r) m2)
+  | _, _ => Eq
+  end.
+
+Lemma pspec_tags : forall r a b,
+  pspec r a b = cthen (tyrank a ?= tyrank b)%Z (cthen (vtag a ?= vtag b)%Z (psame r a b)).
+Proof.
+  intros r a b. unfold pspec.
+  destruct (Z.compare_spec (tyrank a) (tyrank b)) as [E|E|E].
+  - rewrite E, Z.eqb_refl. simpl. pose proof (view_compat a b E) as C.
+    unfold psame, vtag in *.
+    destruct (view_of a), (view_of b); simpl; try reflexivity; exfalso; lia.
+  - replace (tyrank a =? tyrank b)%Z with false by (symmetry; apply Z.eqb_neq; lia). reflexivity.
+  - replace (tyrank a =? tyrank b)%Z with false by (symmetry; apply Z.eqb_neq; lia). reflexivity.
+Qed.
+
+Lemma prank_tags : forall a b, wf0 a = true -> wf0 b = true ->
+  prank a b = cthen (tyrank a ?= tyrank b)%Z (cthen (vtag a ?= vtag b)%Z (psame prank a b)).
+Proof. intros. rewrite prank_eq by auto. apply pspec_tags. Qed.
+
+(* induction on pairs / triples of well-formed values through their components *)
+Lemma pair_ind : forall (P : val -> val -> Prop),
+  (forall a b, wf0 a = true -> wf0 b = true ->
+     (forall x y, In x (elems a) -> In y (elems b) -> P x y) -> P a b) ->
+  forall a b, wf0 a = true -> wf0 b = true -> P a b.
+Proof.
+  intros P H.
+  assert (forall n a b, wsz a + wsz b <= n -> wf0 a = true -> wf0 b = true -> P a b) as G.
+  { induction n as [|n IH]; intros a b Hn Wa Wb.
+    - pose proof (wsz_pos a). lia.
+    - apply H; auto. intros x y Hx Hy.
+      pose proof (elems_size _ _ Hx). pose proof (elems_size _ _ Hy).
+      apply IH; try lia; [apply (elems_wf0 a)|apply (elems_wf0 b)]; auto. }
+  intros a b. apply (G _ a b (le_n _)).
+Qed.
+
+Lemma triple_ind : forall (P : val -> val -> val -> Prop),
+  (forall a b c, wf0 a = true -> wf0 b = true -> wf0 c = true ->
+     (forall x y z, In x (elems a) -> In y (elems b) -> In z (elems c) -> P x y z) -> P a b c) ->
+  forall a b c, wf0 a = true -> wf0 b = true -> wf0 c = true -> P a b c.
+Proof.
+  intros P H.
+  assert (forall n a b c, wsz a + wsz b + wsz c <= n ->
+          wf0 a = true -> wf0 b = true -> wf0 c = true -> P a b c) as G.
+  { induction n as [|n IH]; intros a b c Hn Wa Wb Wc.
+    - pose proof (wsz_pos a). lia.
+    - apply H; auto. intros x y z Hx Hy Hz.
+      pose proof (elems_size _ _ Hx). pose proof (elems_size _ _ Hy). pose proof (elems_size _ _ Hz).
+      apply IH; try lia; [apply (elems_wf0 a)|apply (elems_wf0 b)|apply (elems_wf0 c)]; auto. }
+  intros a b c. apply (G _ a b c (le_n _)).
+Qed.
+
+Lemma single_ind : forall (P : val -> Prop),
+  (forall a, wf0 a = true -> (forall x, In x (elems a) -> P x) -> P a) ->
+  forall a, wf0 a = true -> P a.
+Proof.
+  intros P H.
+  assert (forall n a, wsz a <= n -> wf0 a = true -> P a) as G.
+  { induction n as [|n IH]; intros a Hn Wa.
+    - pose proof (wsz_pos a). lia.
+    - apply H; auto. intros x Hx. pose proof (elems_size _ _ Hx).
+      apply IH; try lia. apply (elems_wf0 a); auto. }
+  intros a. apply (G _ a (le_n _)).
+Qed.
+
+(* lexZ is the generic lexicographic combination of Z.compare *)
+Lemma lexZ_lex : forall a b, lexZ a b = lex Z.compare a b.
+Proof. induction a as [|x a IH]; destruct b as [|y b]; simpl; auto. rewrite IH. destruct (x ?= y)%Z; reflexivity. Qed.
+
+Lemma lrank_refl : forall a, lrank a a = Eq.
+Proof. intros. unfold lrank. rewrite lexZ_lex. apply lex_refl. intros; apply Z.compare_refl. Qed.
+Lemma lrank_anti : forall a b, lrank b a = CompOpp (lrank a b).
+Proof.
+  intros. unfold lrank. rewrite !lexZ_lex. apply lex_anti. intros; apply Z.compare_antisym.
+Qed.
+Lemma lrank_ctr : forall a b c, ctr (lrank a b) (lrank b c) (lrank a c).
+Proof.
+  intros. unfold lrank. rewrite !lexZ_lex. apply lex_ctr. intros; apply Zcompare_ctr.
+Qed.
+
+Lemma lexswap_anti {A} (r : A -> A -> comparison) : forall xs ys,
+  (forall x y, In x xs -> In y ys -> r y x = CompOpp (r x y)) ->
+  lexswap r ys xs = CompOpp (lexswap r xs ys).
+Proof.
+  intros xs ys H. unfold lexswap.
+  destruct (Nat.ltb_spec (length ys) (length xs)), (Nat.ltb_spec (length xs) (length ys)); try lia.
+  - rewrite CompOpp_involutive. reflexivity.
+  - reflexivity.
+  - apply lex_anti; auto.
+Qed.
+
+Lemma view_elems_arr : forall a l x, view_of a = WArr l -> In x l -> In x (elems a).
+Proof. intros a l x V H. unfold elems. rewrite V. auto. Qed.
+Lemma view_elems_assoc : forall a k v, view_of a = WAssoc k v -> In k (elems a) /\ In v (elems a).
+Proof. intros a k v V. unfold elems. rewrite V. simpl. auto. Qed.
+
+Theorem prank_anti : forall a b, wf0 a = true -> wf0 b = true ->
+  prank b a = CompOpp (prank a b).
+Proof.
+  apply (pair_ind (fun a b => prank b a = CompOpp (prank a b))).
+  intros a b Wa Wb IH. rewrite !prank_tags by auto.
+  rewrite !cthen_opp, <- !Z.compare_antisym. f_equal. f_equal.
+  unfold psame.
+  destruct (view_of a) eqn:Va, (view_of b) eqn:Vb; try reflexivity.
+  - apply lrank_anti.
+  - destruct (view_elems_assoc _ _ _ Va), (view_elems_assoc _ _ _ Vb).
+    rewrite cthen_opp. f_equal; apply IH; auto.
+  - apply lexswap_anti. intros x y Hx Hy. apply IH; eapply view_elems_arr; eauto.
+  - apply lexswap_anti. intros p q Hp Hq. apply sorted_in in Hp, Hq.
+    destruct (pair_in_elems _ _ _ Va Hp), (pair_in_elems _ _ _ Vb Hq).
+    unfold pairr. rewrite cthen_opp. f_equal; apply IH; auto.
+Qed.
+
+(* after antisymmetry the "swap" form of the array / map loops is the plain
+   lexicographic order, and map keys are sorted by the order on leaves *)
+Definition sortk (m : list (val * val)) : list (val * val) := sort_values (keyr lrank) m.
+
+Definition psame2 (r : val -> val -> comparison) (a b : val) : comparison :=
+  match view_of a, view_of b with
+  | WLeaf, WLeaf => lrank a b
+  | WAssoc k1 v1, WAssoc k2 v2 => cthen (r k1 k2) (r v1 v2)
+  | WArr xs, WArr ys => lex r xs ys
+  | WMap m1, WMap m2 => lex (pairr r) (sortk m1) (sortk m2)
+  | _, _ => Eq
+  end.
+
+Lemma sortk_prank : forall a m, wf0 a = true -> view_of a = WMap m ->
+  sort_values (keyr prank) m = sortk m.
+Proof.
+  intros a m Wa Va. apply sort_ext. intros x y Hx Hy. unfold keyr.
+  apply prank_leaf; eapply map_keys_leaf; eauto.
+Qed.
+
+Theorem prank_tags2 : forall a b, wf0 a = true -> wf0 b = true ->
+  prank a b = cthen (tyrank a ?= tyrank b)%Z (cthen (vtag a ?= vtag b)%Z (psame2 prank a b)).
+Proof.
+  intros a b Wa Wb. rewrite prank_tags by auto. f_equal. f_equal.
+  unfold psame, psame2.
+  destruct (view_of a) eqn:Va, (view_of b) eqn:Vb; try reflexivity.
+  - apply lexswap_lex. intros x y Hx Hy.
+    apply prank_anti; [apply (elems_wf0 a)|apply (elems_wf0 b)]; auto; eapply view_elems_arr; eauto.
+  - rewrite (sortk_prank a m), (sortk_prank b m0) by auto.
+    apply lexswap_lex. intros p q Hp Hq. apply sorted_in in Hp, Hq.
+    destruct (pair_in_elems _ _ _ Va Hp), (pair_in_elems _ _ _ Vb Hq).
+    unfold pairr. rewrite cthen_opp.
+    f_equal; apply prank_anti; try (apply (elems_wf0 a); auto; fail); apply (elems_wf0 b); auto.
+Qed.
+
+Theorem prank_refl : forall a, wf0 a = true -> prank a a = Eq.
+Proof.
+  apply (single_ind (fun a => prank a a = Eq)).
+  intros a Wa IH. rewrite prank_tags2 by auto. rewrite !Z.compare_refl. simpl.
+  unfold psame2. destruct (view_of a) eqn:Va.
+  - apply lrank_refl.
+  - destruct (view_elems_assoc _ _ _ Va). rewrite !IH; auto.
+  - apply lex_refl. intros x Hx. apply IH. eapply view_elems_arr; eauto.
+  - apply lex_refl. intros p Hp. apply sorted_in in Hp.
+    destruct (pair_in_elems _ _ _ Va Hp). unfold pairr. rewrite !IH; auto.
+Qed.
+
+Theorem prank_ctr : forall a b c, wf0 a = true -> wf0 b = true -> wf0 c = true ->
+  ctr (prank a b) (prank b c) (prank a c).
+Proof.
+  apply (triple_ind (fun a b c => ctr (prank a b) (prank b c) (prank a c))).
+  intros a b c Wa Wb Wc IH. rewrite !prank_tags2 by auto.
+  apply ctr_tag. intros _ _. apply ctr_tag. intros E1 E2.
+  unfold vtag in E1, E2. unfold psame2.
+  destruct (view_of a) eqn:Va, (view_of b) eqn:Vb; try discriminate E1;
+  destruct (view_of c) eqn:Vc; try discriminate E2.
+  - apply lrank_ctr.
+  - destruct (view_elems_assoc _ _ _ Va), (view_elems_assoc _ _ _ Vb), (view_elems_assoc _ _ _ Vc).
+    apply ctr_cthen; apply IH; auto.
+  - apply lex_ctr. intros x y z Hx Hy Hz. apply IH; eapply view_elems_arr; eauto.
+  - apply lex_ctr. intros p q s Hp Hq Hs. apply sorted_in in Hp, Hq, Hs.
+    destruct (pair_in_elems _ _ _ Va Hp), (pair_in_elems _ _ _ Vb Hq), (pair_in_elems _ _ _ Vc Hs).
+    unfold pairr. apply ctr_cthen; apply IH; auto.
+Qed.
+
+Corollary prank_trans : forall a b c, wf0 a = true -> wf0 b = true -> wf0 c = true ->
+  prank a b <> Gt -> prank b c <> Gt -> prank a c <> Gt.
+Proof. intros a b c Wa Wb Wc. apply ctr_le. apply prank_ctr; auto. Qed.
